@@ -148,7 +148,10 @@ def dec_tv(tv):
         tz = tv.get("tz")
         tzinfo = None if tz is None else _dt.timezone(_dt.timedelta(minutes=tz))
         d = EPOCH + _dt.timedelta(days=tv["n"], seconds=tv["m"], microseconds=tv.get("us", 0))
-        d = d.astimezone(tzinfo) if tzinfo is not None else d.replace(tzinfo=None)
+        try:
+            d = d.astimezone(tzinfo) if tzinfo is not None else d.replace(tzinfo=None)
+        except OverflowError:  # the last day of year 9999 has no representation east of UTC
+            pass
         return d, U("dt", tv["n"], tv["m"])
     if tg == "list":
         return list(tv["xs"]), U("list", xs=tv["xs"])
